@@ -1,0 +1,10 @@
+//go:build !verif
+
+package bloom
+
+import "sync"
+
+// simPoint marks a point at which a deterministic simulator may take a
+// scheduling decision. Without the "verif" build tag it is an empty function
+// that the compiler inlines away: shipped behaviour is unchanged.
+func simPoint(site int, mu *sync.Mutex) {}
